@@ -83,6 +83,7 @@ type Call struct {
 	MustReject   bool   // the client has to refuse this call before anything is sent (C07)
 	View         string // the request as the first filter saw it (after de-tunnelling)
 	thresholdSel, threshold, queryLen, damageSel int
+	wantStatus   int // a deliberately damaged request must be answered with this status
 }
 
 //go:norace
@@ -114,6 +115,8 @@ type World struct {
 	nfilt   int
 	filtFail int // index of a filter that fails (-1 none)
 	viewFilter bool
+	srv        restli.Server
+	late       *ResDesc // registered on srv by a task after Handler() was taken
 }
 
 //go:norace
